@@ -17,4 +17,11 @@ def instances():
                         unwind=4, timeout=900, quick_also=["C01"], bounds="table of one 1-item tuple; argument a null tuple", inputs="position (int64 / null), tuple item value"))
     out.append(Inst(id="c09.put.scalar_into_2dim", props=["C09", "C01"], harness="h_tables.cpp", entry="c09_put_scalar_into_2dim", tus=TT, stubs=FMT_STUBS + CTX_STUBS + ["_ZN4bloc7ComplexC2EOS0_", "_ZN4bloc7ComplexC2ERKS0_", "_ZN4bloc7ComplexC2EtPv", "_ZN4bloc7ComplexD2Ev"],
                     unwind=4, timeout=900, bounds="[[integer]] table with one inner table of one integer", inputs="argument value, null flag, lvalue flag"))
+    PUT_STUBS = FMT_STUBS + CTX_STUBS + ["_ZN4bloc7ComplexC2EOS0_", "_ZN4bloc7ComplexC2ERKS0_", "_ZN4bloc7ComplexC2EtPv", "_ZN4bloc7ComplexD2Ev"]
+    for rl, al in ((0, 1), (1, 1), (0, 0), (1, 0)):
+        out.append(Inst(id="c05.put.%s.%s" % ("var" if rl else "tmp", "var" if al else "tmp"), props=["C05", "C09", "C01"], harness="h_tables.cpp", entry="c05_put_copy", tus=TT,
+                        defs=["VX_RECV_LVAL=%d" % rl, "VX_ARG_LVAL=%d" % al], stubs=PUT_STUBS, unwind=4, unwindset=EMPTY_DECL_UNWIND, timeout=600,
+                        tier="quick" if al else "thorough", quick_also=["C09"] if (rl, al) == (0, 1) else [],
+                        bounds="put(p, x) on a table of 2 integers; receiver is a %s, argument a %s" % ("variable" if rl else "temporary", "variable" if al else "temporary"),
+                        inputs="value, position"))
     return out
